@@ -157,17 +157,32 @@ def plan(rng, tier):
         cfg["dom"]["nk"] = rng.choice([200, 400])
         cfg["dom"]["ext"] = False
         pre = cfg["dom"]["nk"] * 2 // 3
+        if cfg["dom"]["fam"] == "OO" and cfg["kind"] == "BTree" and \
+                rng.random() < (0.15 if tier == "quick" else 0.4):
+            # LARGE: interior nodes split at their default fan-out in both
+            # implementations (shapes are compared through the pickles)
+            cfg["dom"]["nk"] = rng.choice([8500, 10000])
+            cfg["dom"]["kflavor"] = rng.choice(["int", "str"])
+            cfg["dom"].pop("none", None)
+            pre = cfg["dom"]["nk"] - rng.randrange(500)
     dom = Domain(cfg["dom"])
     kind = cfg["kind"]
     mapping = is_mapping(kind)
     g = common.Gen(rng, dom, kind)
     out = []
-    if pre:
+    if pre > 5000 and rng.random() < 0.5:
+        for k in range(pre):            # ascending
+            op = ["set", k, g.val()]
+            g.model.apply(op)
+            out.append(op)
+    elif pre:
         out.extend(g.fill(pre))
     elif rng.random() < 0.5:
         out.extend(g.fill(rng.randint(0, dom.nkeys)))
     n = rng.randint(20, 70) if tier == "quick" else rng.choice(
         [30, 60, 120, 200])
+    if pre > 5000:
+        n = min(n, 30)
     p_ood = rng.choice([0.0, 0.15, 0.3, 0.5])
     from . import ranges
     meths = ranges.MAP_METHS if mapping else ranges.SET_METHS
